@@ -267,6 +267,9 @@ impl Zone {
 
         if other.soa.is_some() {
             self.soa = other.soa;
+            // the apex SOA RRset follows the SOA: drop the old record
+            // so the merged-in one (in `other.records`) replaces it.
+            self.records.this.remove(&RecordType::SOA);
         }
 
         self.records.merge(other.records);
